@@ -4,7 +4,7 @@
 wt="$1"; n="$2"; cd "$wt" || exit 3
 export CARGO_TARGET_DIR="$wt/target" CARGO_NET_OFFLINE=true
 git checkout -q -- . ; rm -f tests/verif_demo.rs
-head -5 _seed/demo$n.rs | grep -qi "src/" && where=src || where=tests
+if head -8 _seed/demo$n.rs | grep -q "tests/"; then where=tests; elif head -5 _seed/demo$n.rs | grep -qi "src/"; then where=src; else where=tests; fi
 mkdir -p tests
 if [ "$where" = tests ]; then cp _seed/demo$n.rs tests/verif_demo.rs; else echo "demo$n must be placed inside a source file: see header"; head -8 _seed/demo$n.rs; fi
 git apply _seed/change$n.diff || { echo "APPLY-FAILED"; exit 3; }
